@@ -51,6 +51,11 @@ theorem smHandleStanza_sup (c : Conn) (st : XTree) : (smHandleStanza c st).tlsSu
   repeat' split
   all_goals simp
 
+/-- the ghost log of the inbound count is not looked at by the invariant -/
+theorem Inv_rxLog {u ut : Option Nat} {c : Conn} (h : Inv u ut c) (l : List RxEv) :
+    Inv u ut { c with rxLog := l } :=
+  h.same (by simp [SameAll])
+
 theorem PE_handleStreamStanza {c : Conn} (h : PE c) (hp : c.pst = .opened) (st : XTree) :
     PE (handleStreamStanza c st) := by
   unfold handleStreamStanza
@@ -61,8 +66,8 @@ theorem PE_handleStreamStanza {c : Conn} (h : PE c) (hp : c.pst = .opened) (st :
       Disp_fireStanza ⟨h.1, ⟨h.2, fun e => absurd e hd, by rw [hp]; simp⟩⟩ st
     simp only
     split
-    · exact ⟨Inv_smHandleStanza d.1 st, by rw [smHandleStanza_sup]; exact d.2.sup⟩
-    · exact ⟨d.1, d.2.sup⟩
+    · exact ⟨Inv_smHandleStanza (Inv_rxLog d.1 _) st, by rw [smHandleStanza_sup]; exact d.2.sup⟩
+    · exact ⟨Inv_rxLog d.1 _, d.2.sup⟩
 
 theorem not_Fr_same {c c' : Conn} (n : ¬Fr c) (e : same_p[c, c']) : ¬Fr c' := by
   unfold Fr at *; rw [e.1, e.2]; exact n
